@@ -143,6 +143,20 @@ def _alarm(signum, frame):
     raise HangDetected()
 
 
+def wide_oracle(c, r):
+    """generic rule for the wide correspondence stream (widegen.py): once a request has gone out, no undocumented exception escapes"""
+    from harness import clientlib
+    try:
+        cfgv, ops = clientlib.case_ops(c)
+        n = len([o for o in ops if o[0] == 'call'])
+        for d in clientlib.parse_calls(r, n)[0]:
+            if d['kind'] == 'raised' and d['err'] not in DOCUMENTED and any(e[0] == 'S' for e in d['events']):
+                return ('internal-error/%s' % c.tag.split(' / ')[1], 'an internal error (code %d) escaped in history %r' % (d['err'], ops))
+    except Exception as e:
+        return ('oracle-error', '%s: %s' % (type(e).__name__, str(e)[:200]))
+    return None
+
+
 def _work(chunk):
     import signal
     out = []
@@ -150,10 +164,16 @@ def _work(chunk):
     signal.signal(signal.SIGALRM, _alarm)
     for cj in chunk:
         c = Case.from_json(cj)
+        wide = c.tag.startswith('wide /')
         try:
             signal.setitimer(signal.ITIMER_REAL, limit)
             try:
-                r = _MOD.impl(c)
+                if wide:
+                    from harness import clientlib
+                    clientlib.setup()
+                    r = clientlib.run_history_case(c)
+                else:
+                    r = _MOD.impl(c)
             finally:
                 signal.setitimer(signal.ITIMER_REAL, 0)
         except HangDetected:
@@ -163,6 +183,9 @@ def _work(chunk):
             r = ['HARNESS-ERROR', type(e).__name__, str(e)[:200]]
         if r and r[0] == 'HANG':
             out.append((r, ('hang', 'the call did not return or raise within %s s of real time (the client clock is virtual: nothing waits)' % (r[1] if len(r) > 1 else '?'))))
+            continue
+        if wide and not (r and r[0] == 'HARNESS-ERROR'):
+            out.append((r, wide_oracle(c, r)))
             continue
         try:
             o = _MOD.oracle(c, r) if not (r and r[0] == 'HARNESS-ERROR') else None
@@ -290,6 +313,11 @@ def main(modname, argv):
             if fn.endswith('.json'):
                 corpus.append(Case.from_json(json.load(open(os.path.join(cdir, fn)))['case']))
     cases = corpus + list(mod.gen_cases(tier, seed))
+    nwide = getattr(mod, 'WIDE', 0) if tier == 'thorough' else getattr(mod, 'WIDE_QUICK', 0)
+    if nwide:
+        # the wide correspondence stream: all dimensions drawn at once; a different stream per property
+        from harness import widegen
+        cases += list(widegen.gen(seed * 100 + int(prop[1:]), nwide))
     impl_res = run_impl(modname, cases)
     model_ok = st['driver']['ok']
     model_res = None
@@ -320,7 +348,7 @@ def main(modname, argv):
         key = c.line()
         if key not in seen:
             seen.add(key)
-            if mod.nontrivial(c, r):
+            if c.tag.startswith('wide /') or mod.nontrivial(c, r):
                 nontrivial += 1
                 if c.tag not in samples and len(samples) < 12:
                     samples[c.tag] = {'case': c.to_json(), 'impl': r[:40], 'model': (m[:40] if m is not None else None)}
@@ -419,14 +447,23 @@ def replay(mod, modname, path):
         return 1
     c = Case.from_json(d['case'])
     _init_worker(modname)
-    r = mod.impl(c)
-    o = mod.oracle(c, r)
+    if c.tag.startswith('wide /'):
+        from harness import clientlib
+        clientlib.setup()
+        r = clientlib.run_history_case(c)
+        o = wide_oracle(c, r)
+    else:
+        r = mod.impl(c)
+        o = mod.oracle(c, r)
     try:
         m = run_model([c])[0]
     except Exception as e:
         m = 'model unavailable: %s' % e
     print('case   :', c.line())
-    if hasattr(mod, 'describe'):
+    if c.tag.startswith('wide /'):
+        from harness import clientlib
+        print('meaning: cfg=%r ops=%r' % clientlib.case_ops(c))
+    elif hasattr(mod, 'describe'):
         print('meaning:', mod.describe(c))
     print('impl   :', r)
     print('model  :', m)
